@@ -9,6 +9,11 @@ pm = conj pp), real widths / metric scales / materials / Courant number, the ses
 is unchanged by the lossless source-free step (`C01_bloch_energy_conserved`) and by any number of steps
 (`C01_bloch_energy_steps`), for every shape, every mix of zero / periodic / Bloch halos and PEC/PMC walls, every
 metric and diagonal ε, μ.  For real fields and pp = pm = 1 this is the statement of `C01_energy_conserved`.
+
+With a real per-component loss factor `a` (the semi-implicit electric-conductivity update, `1 + a ≠ 0`) the same
+computation gives the exact balance  Q(E',H') = Q(E,H) − ⟨a·ε·(E'+E), E'+E⟩  (`bloch_energy_balance`,
+`C01_bloch_lossy_decrement`); the sign of the dissipation term and the many-step statement are in
+`FdtdxProps/C01BlochLossy.lean`.
 -/
 import FdtdxProps.C01
 import FdtdxLemmas.CurlAdjointStar
@@ -68,18 +73,60 @@ private theorem ptA (mu nu c h x sh sx : K) (hmn : mu * nu = 1) :
       = mu * sh * h - c / 2 * (sh * x + sx * h) := by
   linear_combination (-c * (sh * x + sx * h) + c ^ 2 * nu * (sx * x)) * hmn
 
-/-- pointwise electric identity -/
-private theorem ptB (eps nu c e y se sy : K) (hen : eps * nu = 1) :
-    eps * (se + c * sy * nu) * (e + c * y * nu) - eps * se * e
-      = c / 2 * (sy * ((e + c * y * nu) + e) + ((se + c * sy * nu) + se) * y) := by
-  linear_combination (c * (se * y + sy * e) + c ^ 2 * nu * (sy * y)) * hen
+/-- every entry of a vector field is fixed by `star` (a real array of the code) -/
+structure RealV (A : V3 K) : Prop where
+  x : ∀ i j k, star (A.x i j k) = A.x i j k
+  y : ∀ i j k, star (A.y i j k) = A.y i j k
+  z : ∀ i j k, star (A.z i j k) = A.z i j k
 
-/-- **C01_bloch_energy_conserved** -/
-theorem C01_bloch_energy_conserved (cf : Cfg K) (W : Widths K) (ref : K) (m : Mat K) (eps mu : V3 K) (E H : V3 K)
+/-- pointwise electric identity of the semi-implicit update `(1+a)·e' = (1−a)·e + c·y·ν` (and its conjugate) -/
+private theorem ptB (eps nu c a e y se sy e' se' : K) (hen : eps * nu = 1)
+    (h1 : (1 + a) * e' = (1 - a) * e + c * y * nu) (h2 : (1 + a) * se' = (1 - a) * se + c * sy * nu) :
+    eps * se' * e' - eps * se * e
+      = c / 2 * (sy * (e' + e) + (se' + se) * y) - a * eps * (se' + se) * (e' + e) := by
+  linear_combination (eps / 2 * (e' + e)) * h2 + (eps / 2 * (se' + se)) * h1
+    + (c / 2 * (sy * (e' + e) + (se' + se) * y)) * hen
+
+/-- one component of the electric balance: a masked (PEC) component stays 0, the others follow the semi-implicit
+update with real `c`, `ν = ε⁻¹`, `a` -/
+private theorem compB (eps nu c a e y e' : K) (msk : Bool) (hen : eps * nu = 1)
+    (hc : star c = c) (hnu : star nu = nu) (ha : star a = a) (hne : 1 + a ≠ 0)
+    (hwall : msk = true → e = 0)
+    (hv : e' = if msk then 0 else ((1 - a) * e + c * y * nu) / (1 + a)) :
+    eps * star e' * e' - eps * star e * e
+      = c / 2 * (star y * (e' + e) + star (e' + e) * y) - a * eps * star (e' + e) * (e' + e) := by
+  cases msk with
+  | true =>
+    simp only [if_true] at hv
+    rw [hv, hwall rfl]; simp
+  | false =>
+    simp only [Bool.false_eq_true, if_false] at hv
+    have h1 : (1 + a) * e' = (1 - a) * e + c * y * nu := by rw [hv]; field_simp
+    have h2 : (1 + a) * star e' = (1 - a) * star e + c * star y * nu := by
+      have := congrArg star h1
+      simpa only [star_add, star_sub, star_mul', star_one, hc, hnu, ha] using this
+    rw [star_add]
+    exact ptB eps nu c a e y (star e) (star y) e' (star e') hen h1 h2
+
+/-- **bloch_energy_balance** (covers the lossless case with `a = 0`): exact sesquilinear energy balance of one
+source-free step.  `aE` is the real loss factor `c·σ·η₀·ε⁻¹/2` per component (0 where there is no conductivity). -/
+theorem bloch_energy_balance (cf : Cfg K) (W : Widths K) (ref : K) (m : Mat K) (eps mu : V3 K) (E H : V3 K)
     (hm : MetricOK cf W ref) (hh : HalosBloch cf) (hs : ScalesReal cf) (hr : RealData cf W m eps mu)
-    (hmat : MatOK m eps mu) (hw : WallOK cf E H) (hsE : m.sigE = none) (hsH : m.sigH = none) :
+    (hmat : MatOK m eps mu) (hw : WallOK cf E H) (hsH : m.sigH = none)
+    (aE : V3 K) (haR : RealV aE)
+    (hax : ∀ i j k, (1 + aE.x i j k) ≠ 0 ∧ (stepE cf m zeroV E H).x i j k
+        = if pecMask cf 0 i j k then 0 else
+          ((1 - aE.x i j k) * E.x i j k + cf.c * (curlH cf H).x i j k * m.invEps.x i j k) / (1 + aE.x i j k))
+    (hay : ∀ i j k, (1 + aE.y i j k) ≠ 0 ∧ (stepE cf m zeroV E H).y i j k
+        = if pecMask cf 1 i j k then 0 else
+          ((1 - aE.y i j k) * E.y i j k + cf.c * (curlH cf H).y i j k * m.invEps.y i j k) / (1 + aE.y i j k))
+    (haz : ∀ i j k, (1 + aE.z i j k) ≠ 0 ∧ (stepE cf m zeroV E H).z i j k
+        = if pecMask cf 2 i j k then 0 else
+          ((1 - aE.z i j k) * E.z i j k + cf.c * (curlH cf H).z i j k * m.invEps.z i j k) / (1 + aE.z i j k)) :
     energyC cf W eps mu (forward cf m zeroV zeroV E H).1 (forward cf m zeroV zeroV E H).2
-      = energyC cf W eps mu E H := by
+      = energyC cf W eps mu E H
+        - pairEs cf W (mulV (mulV aE eps) (addV (forward cf m zeroV zeroV E H).1 E))
+            (addV (forward cf m zeroV zeroV E H).1 E) := by
   set E' := (forward cf m zeroV zeroV E H).1 with hE'd
   set H' := (forward cf m zeroV zeroV E H).2 with hH'd
   set G := addV E' E with hG
@@ -129,39 +176,29 @@ theorem C01_bloch_energy_conserved (cf : Cfg K) (W : Widths K) (ref : K) (m : Ma
       + (W.wx i * W.wy j * W.dz k) * cz
   -- Step B
   have stepB : pairEs cf W (mulV eps E') E' - pairEs cf W (mulV eps E) E
-      = cf.c / 2 * (pairEs cf W (curlH cf H) G + pairEs cf W G (curlH cf H)) := by
+      = cf.c / 2 * (pairEs cf W (curlH cf H) G + pairEs cf W G (curlH cf H))
+        - pairEs cf W (mulV (mulV aE eps) G) G := by
     unfold pairEs
-    rw [← sum3_add, ← sum3_mul_left, ← sum3_sub]
+    rw [← sum3_add, ← sum3_mul_left, ← sum3_sub, ← sum3_sub]
     apply sum3_congr
     intro i j k _ _ _
-    have qx : E'.x i j k = if pecMask cf 0 i j k then 0 else E.x i j k + cf.c * (curlH cf H).x i j k * m.invEps.x i j k := by
-      rw [hE']; simp [stepE, projE, maskV, addV, zeroV, constV, hsE, optAt, updE1]
-    have qy : E'.y i j k = if pecMask cf 1 i j k then 0 else E.y i j k + cf.c * (curlH cf H).y i j k * m.invEps.y i j k := by
-      rw [hE']; simp [stepE, projE, maskV, addV, zeroV, constV, hsE, optAt, updE1]
-    have qz : E'.z i j k = if pecMask cf 2 i j k then 0 else E.z i j k + cf.c * (curlH cf H).z i j k * m.invEps.z i j k := by
-      rw [hE']; simp [stepE, projE, maskV, addV, zeroV, constV, hsE, optAt, updE1]
     have bx : eps.x i j k * star (E'.x i j k) * E'.x i j k - eps.x i j k * star (E.x i j k) * E.x i j k
-        = cf.c / 2 * (star ((curlH cf H).x i j k) * G.x i j k + star (G.x i j k) * (curlH cf H).x i j k) := by
-      have hGx : G.x i j k = E'.x i j k + E.x i j k := rfl
-      rw [hGx, qx]; split_ifs with hmk
-      · rw [hw.ex i j k hmk]; simp
-      · simp only [star_add, star_mul', hr.c, (hr.ex i j k).2]
-        exact ptB _ _ _ _ _ _ _ (hmat.ex i j k)
+        = cf.c / 2 * (star ((curlH cf H).x i j k) * G.x i j k + star (G.x i j k) * (curlH cf H).x i j k)
+          - aE.x i j k * eps.x i j k * star (G.x i j k) * G.x i j k :=
+      compB _ _ _ _ _ _ _ (pecMask cf 0 i j k) (hmat.ex i j k) hr.c (hr.ex i j k).2 (haR.x i j k)
+        (hax i j k).1 (hw.ex i j k) (hax i j k).2
     have by_ : eps.y i j k * star (E'.y i j k) * E'.y i j k - eps.y i j k * star (E.y i j k) * E.y i j k
-        = cf.c / 2 * (star ((curlH cf H).y i j k) * G.y i j k + star (G.y i j k) * (curlH cf H).y i j k) := by
-      have hGy : G.y i j k = E'.y i j k + E.y i j k := rfl
-      rw [hGy, qy]; split_ifs with hmk
-      · rw [hw.ey i j k hmk]; simp
-      · simp only [star_add, star_mul', hr.c, (hr.ey i j k).2]
-        exact ptB _ _ _ _ _ _ _ (hmat.ey i j k)
+        = cf.c / 2 * (star ((curlH cf H).y i j k) * G.y i j k + star (G.y i j k) * (curlH cf H).y i j k)
+          - aE.y i j k * eps.y i j k * star (G.y i j k) * G.y i j k :=
+      compB _ _ _ _ _ _ _ (pecMask cf 1 i j k) (hmat.ey i j k) hr.c (hr.ey i j k).2 (haR.y i j k)
+        (hay i j k).1 (hw.ey i j k) (hay i j k).2
     have bz : eps.z i j k * star (E'.z i j k) * E'.z i j k - eps.z i j k * star (E.z i j k) * E.z i j k
-        = cf.c / 2 * (star ((curlH cf H).z i j k) * G.z i j k + star (G.z i j k) * (curlH cf H).z i j k) := by
-      have hGz : G.z i j k = E'.z i j k + E.z i j k := rfl
-      rw [hGz, qz]; split_ifs with hmk
-      · rw [hw.ez i j k hmk]; simp
-      · simp only [star_add, star_mul', hr.c, (hr.ez i j k).2]
-        exact ptB _ _ _ _ _ _ _ (hmat.ez i j k)
-    simp only [mulV, star_mul', (hr.ex i j k).1, (hr.ey i j k).1, (hr.ez i j k).1]
+        = cf.c / 2 * (star ((curlH cf H).z i j k) * G.z i j k + star (G.z i j k) * (curlH cf H).z i j k)
+          - aE.z i j k * eps.z i j k * star (G.z i j k) * G.z i j k :=
+      compB _ _ _ _ _ _ _ (pecMask cf 2 i j k) (hmat.ez i j k) hr.c (hr.ez i j k).2 (haR.z i j k)
+        (haz i j k).1 (hw.ez i j k) (haz i j k).2
+    simp only [mulV, star_mul', (hr.ex i j k).1, (hr.ey i j k).1, (hr.ez i j k).1, haR.x i j k, haR.y i j k,
+      haR.z i j k]
     linear_combination (W.wx i * W.dy j * W.dz k) * bx + (W.dx i * W.wy j * W.dz k) * by_
       + (W.dx i * W.dy j * W.wz k) * bz
   -- Step C: additivity of curlE inside the pairing
@@ -183,6 +220,55 @@ theorem C01_bloch_energy_conserved (cf : Cfg K) (W : Widths K) (ref : K) (m : Ma
   unfold energyC
   rw [symH, symH]
   linear_combination stepA + stepB - cf.c / 2 * stepC - cf.c / 2 * stepC' - cf.c / 2 * stepD - cf.c / 2 * stepD'
+
+/-- **C01_bloch_energy_conserved**: lossless, source-free step (the balance with `a = 0`). -/
+theorem C01_bloch_energy_conserved (cf : Cfg K) (W : Widths K) (ref : K) (m : Mat K) (eps mu : V3 K) (E H : V3 K)
+    (hm : MetricOK cf W ref) (hh : HalosBloch cf) (hs : ScalesReal cf) (hr : RealData cf W m eps mu)
+    (hmat : MatOK m eps mu) (hw : WallOK cf E H) (hsE : m.sigE = none) (hsH : m.sigH = none) :
+    energyC cf W eps mu (forward cf m zeroV zeroV E H).1 (forward cf m zeroV zeroV E H).2
+      = energyC cf W eps mu E H := by
+  have hb := bloch_energy_balance cf W ref m eps mu E H hm hh hs hr hmat hw hsH (constV 0)
+    ⟨fun _ _ _ => by simp [constV], fun _ _ _ => by simp [constV], fun _ _ _ => by simp [constV]⟩
+    (fun i j k => ⟨by simp [constV], by simp [stepE, projE, maskV, addV, zeroV, constV, hsE, optAt, updE1]⟩)
+    (fun i j k => ⟨by simp [constV], by simp [stepE, projE, maskV, addV, zeroV, constV, hsE, optAt, updE1]⟩)
+    (fun i j k => ⟨by simp [constV], by simp [stepE, projE, maskV, addV, zeroV, constV, hsE, optAt, updE1]⟩)
+  rw [hb]
+  have : pairEs cf W (mulV (mulV (constV 0) eps) (addV (forward cf m zeroV zeroV E H).1 E))
+      (addV (forward cf m zeroV zeroV E H).1 E) = 0 := by
+    unfold pairEs
+    rw [sum3_congr cf.nx cf.ny cf.nz _ (fun _ _ _ => (0 : K)) (fun i j k _ _ _ => by simp [mulV, constV])]
+    exact sum3_zero _ _ _
+  rw [this, sub_zero]
+
+/-- the loss factor `c·σ·η₀·ε⁻¹/2` of real `c`, `σ`, `η₀`, `ε⁻¹` is real -/
+theorem lossFactor_real (cf : Cfg K) (W : Widths K) (m : Mat K) (eps mu : V3 K) (sig : V3 K)
+    (hr : RealData cf W m eps mu) (heta : star cf.eta0 = cf.eta0) (hsig : RealV sig) :
+    RealV (lossFactor cf m sig) := by
+  constructor <;> intro i j k
+  · simp only [lossFactor, star_div₀, star_mul', star_ofNat, hr.c, heta, hsig.x i j k, (hr.ex i j k).2]
+  · simp only [lossFactor, star_div₀, star_mul', star_ofNat, hr.c, heta, hsig.y i j k, (hr.ey i j k).2]
+  · simp only [lossFactor, star_div₀, star_mul', star_ofNat, hr.c, heta, hsig.z i j k, (hr.ez i j k).2]
+
+/-- **C01_bloch_lossy_decrement**: with a real electric conductivity σ (and real η₀) the sesquilinear energy changes
+by exactly `− ⟨a·ε·(E'+E), E'+E⟩`, `a = c·σ·η₀·ε⁻¹/2`, provided the update's divisor `1 + a` is non-zero —
+Bloch / periodic / zero halos, PEC / PMC walls, complex fields. -/
+theorem C01_bloch_lossy_decrement (cf : Cfg K) (W : Widths K) (ref : K) (m : Mat K) (eps mu : V3 K) (E H : V3 K)
+    (sig : V3 K)
+    (hm : MetricOK cf W ref) (hh : HalosBloch cf) (hs : ScalesReal cf) (hr : RealData cf W m eps mu)
+    (hmat : MatOK m eps mu) (hw : WallOK cf E H)
+    (hsE : m.sigE = some sig) (hsH : m.sigH = none)
+    (heta : star cf.eta0 = cf.eta0) (hsig : RealV sig)
+    (hdiv : ∀ i j k, 1 + (lossFactor cf m sig).x i j k ≠ 0 ∧ 1 + (lossFactor cf m sig).y i j k ≠ 0
+      ∧ 1 + (lossFactor cf m sig).z i j k ≠ 0) :
+    energyC cf W eps mu (forward cf m zeroV zeroV E H).1 (forward cf m zeroV zeroV E H).2
+      = energyC cf W eps mu E H
+        - pairEs cf W (mulV (mulV (lossFactor cf m sig) eps) (addV (forward cf m zeroV zeroV E H).1 E))
+            (addV (forward cf m zeroV zeroV E H).1 E) :=
+  bloch_energy_balance cf W ref m eps mu E H hm hh hs hr hmat hw hsH (lossFactor cf m sig)
+    (lossFactor_real cf W m eps mu sig hr heta hsig)
+    (fun i j k => ⟨(hdiv i j k).1, by simp [stepE, projE, maskV, addV, zeroV, constV, hsE, optAt, updE1, lossFactor]⟩)
+    (fun i j k => ⟨(hdiv i j k).2.1, by simp [stepE, projE, maskV, addV, zeroV, constV, hsE, optAt, updE1, lossFactor]⟩)
+    (fun i j k => ⟨(hdiv i j k).2.2, by simp [stepE, projE, maskV, addV, zeroV, constV, hsE, optAt, updE1, lossFactor]⟩)
 
 /-- **C01_bloch_energy_steps**: any number of steps. -/
 theorem C01_bloch_energy_steps (cf : Cfg K) (W : Widths K) (ref : K) (m : Mat K) (eps mu : V3 K) (E H : V3 K)
